@@ -57,6 +57,10 @@ type Case struct {
 	Dst   Dest   `json:"dst"`
 	User  string `json:"user"` // "", "ghost" (unregistered), "plain", "loop", "priv", "both"
 	Rules []Rule `json:"rules,omitempty"`
+	// Rsv is the request's reserved octet. RFC 1928 says 0; mieru's request
+	// reader does not look at it (and the client forwards it verbatim), so a
+	// request with another value is served like any other
+	Rsv byte `json:"rsv,omitempty"`
 }
 
 var localNames = []string{"localhost", "localhost4", "localhost.localdomain", "localhost4.localdomain4", "localhost6", "ip6-localhost", "ip6-loopback", "localhost6.localdomain6"}
@@ -142,6 +146,7 @@ func genCase(t *rapid.T) Case {
 		Dst:   genDest(t),
 		User:  rapid.SampledFrom([]string{"", "ghost", "plain", "plain", "loop", "priv", "both"}).Draw(t, "user"),
 		Rules: genRules(t),
+		Rsv:   rapid.SampledFrom([]byte{0, 0, 0, 0, 0, 1, 5, 0x80, 0xff}).Draw(t, "rsv"),
 	}
 }
 
@@ -270,7 +275,7 @@ func prop(c Case) (o pbt.Outcome) {
 		o.Failf("harness", "socks5.New: %v", err)
 		return
 	}
-	raw := append([]byte{5, c.Cmd, 0}, c.Dst.raw()...)
+	raw := append([]byte{5, c.Cmd, c.Rsv}, c.Dst.raw()...)
 	in := egress.Input{Protocol: pb.ProxyProtocol_SOCKS5_PROXY_PROTOCOL, Data: raw}
 	if c.User != "" {
 		in.Env = map[string]string{"user": c.User}
@@ -286,6 +291,7 @@ func prop(c Case) (o pbt.Outcome) {
 	o.NonTrivial = (class != classPublic && nonCanon) || overlap >= 2
 	o.Label("class=%d", class)
 	o.Label("cmd=%d", c.Cmd)
+	o.Label("rsv!=0=%v", c.Rsv != 0)
 	o.Label("nonCanonical=%v", nonCanon)
 	o.Label("matchingRules=%d", overlap)
 	o.Obs = map[string]any{"action": got.Action.String(), "class": class}
